@@ -40,6 +40,7 @@ func checkC06(c *Ctx) {
 	c.Rule("C06.R2", "a position is built as [p.X, p.Y] and read back as X=e[0], Y=e[1] under a len(e)==2 guard")
 	c.Rule("C06.R3", "every conversion loop (encoder and decoder) is a full-range identity index map into a fresh slice of the source's length")
 	c.Rule("C06.R4", "Encode returns json.Marshal's error (non-finite coordinates) and an error for unsupported types")
+	c.Rule("C06.R6", "the bytes Encode returns are freshly allocated in the call (no package-level buffer, no sync.Pool object)")
 	c.Rule("C06.R5", "trust base of the exact round trip: number formatting and parsing are encoding/json's own (shortest representation that round-trips, errors for NaN/Inf) — no type of the package customises its JSON or text form")
 	p := c.P.Pkg("encoding/geojson")
 	if p == nil {
@@ -53,6 +54,8 @@ func checkC06(c *Ctx) {
 	c06loops(c, p)
 	c06errors(c, info)
 	c06delegation(c, p)
+	checkFreshResult(c, "C06.R6", c.P.Func("encoding/geojson", "Encode"))
+	c.Floor("C06.R6", 1)
 	c.Floor("C06.R5", 1)
 	c.Floor("C06.R1", 13)
 	c.Floor("C06.R2", 3)
@@ -589,7 +592,28 @@ func c06errors(c *Ctx, info *types.Info) {
 	msg := "json.Marshal is not called"
 	ast.Inspect(fd.Body, func(n ast.Node) bool {
 		call, ok := n.(*ast.CallExpr)
-		if !ok || !isFuncIn(callee(info, call), "encoding/json", "Marshal") {
+		if !ok {
+			return true
+		}
+		if cf := callee(info, call); cf != nil && cf.FullName() == "(*encoding/json.Encoder).Encode" {
+			// the streaming form reports the same errors; its single result must reach the caller
+			msg = "the json.Encoder's error does not reach the caller"
+			path := enclosing(fd.Body, call)
+			if len(path) >= 2 {
+				if as, ok := path[len(path)-2].(*ast.AssignStmt); ok && len(as.Lhs) == 1 {
+					if eo := objOf(info, as.Lhs[0]); eo != nil && eo.Name() != "_" {
+						ast.Inspect(fd.Body, func(m ast.Node) bool {
+							if r, ok := m.(*ast.ReturnStmt); ok && len(r.Results) == 2 && objOf(info, r.Results[1]) == eo {
+								okMarshal = true
+							}
+							return true
+						})
+					}
+				}
+			}
+			return true
+		}
+		if !isFuncIn(callee(info, call), "encoding/json", "Marshal") {
 			return true
 		}
 		msg = "json.Marshal's error does not reach the caller"
@@ -613,7 +637,7 @@ func c06errors(c *Ctx, info *types.Info) {
 		return true
 	})
 	if okMarshal {
-		c.OK("C06.R4", "encoding/geojson.Encode#marshal-error", fd.Pos(), "json.Marshal's (value, error) is returned")
+		c.OK("C06.R4", "encoding/geojson.Encode#marshal-error", fd.Pos(), "encoding/json's error is returned")
 	} else {
 		c.Bad("C06.R4", "encoding/geojson.Encode#marshal-error", fd.Pos(), "%s: non-finite coordinates would not be reported", msg)
 	}
